@@ -16,7 +16,7 @@ BIG = 2 ** 53
 # ------------------------------------------------------------------ opf_accuracy (ASSUMED here; C20 is about its body)
 
 contract("opfython.math.general.opf_accuracy", params={"labels": "list[int]", "preds": "list[int]", "return": "real"},
-         trusted=True, props=["C16"],
+         trusted=True, props=["C16"], at_caller=[KS + "_learn"],
          ensures=lambda v, old, result: [("range", conj(ge(result, 0), le(result, 1)))])
 
 
